@@ -69,7 +69,7 @@ OutputType option2class_option_data(const uint8_t* ptr, uint32_t total_sz) {
     typedef typename OutputType::value_type value_type;
     OutputType output;
     size_t index = 0;
-    while (index + 2 < total_sz) {
+    while (index + 2 <= total_sz) {
         uint16_t size;
         memcpy(&size, ptr + index, sizeof(uint16_t));
         size = Endian::be_to_host(size);
